@@ -1735,7 +1735,8 @@ Proof.
   destruct (rev w) as [|q ?]; [reflexivity|]. destruct (N.ltb 0 (q_seq q)); reflexivity.
 Qed.
 Lemma rc_store_recv_snapshot fl rc srg seq cps :
-  rc_store (recv_snapshot fl rc srg seq cps) = fold_left put_cp cps (rc_store rc).
+  rc_store (recv_snapshot fl rc srg seq cps) =
+  fold_left put_cp cps (rc_store (if f_lagdel fl then rc else purge fl rc srg cps)).
 Proof. unfold recv_snapshot. rewrite <- (store_of_updates fl). destruct (N.ltb 0 seq); reflexivity. Qed.
 
 (* every live session still has an entry in the retained backlog window *)
@@ -1778,7 +1779,8 @@ Proof.
   assert (Hsplit : reqs1 = firstn (n1 - c) reqs1 ++ w) by (unfold w; symmetry; apply firstn_skipn).
   unfold sys_step, bulk_op. cbn [y_sender y1 aget]. rewrite N.eqb_refl, Ho, Hnw.
   destruct (N.eqb_spec o 0) as [E0|_]; [lia|]. destruct (N.eqb_spec n 0) as [E0|_]; [lia|]. cbn [orb].
-  unfold last_of. cbn [y_recv y1 rc_last aget]. rewrite N.add_0_l, !Nat.mul_0_r.
+  unfold range. rewrite Hfr, Hrange, somes_map_some.
+  unfold last_of. cbn [y_recv y1 rc_last aget]. rewrite N.add_0_l.
   assert (Hwin : forall rcb,
      rc_store rcb = fold_left put_cp (compact w) [] ->
      (f_window fl = true \/ (n1 <= c)%nat) ->
@@ -1796,29 +1798,28 @@ Proof.
         rewrite last_write_app, Ew. exact Ep.
       + fold n1 c in Hq. fold reqs1 in Hq. fold w in Hq. apply (proj1 (last_write_none k w) Ew q Hq Hk).
     - replace (n1 - c)%nat with 0%nat by lia. reflexivity. }
-  destruct (f_window fl) eqn:Hfw; cbn [orb].
-  - (* HEAD: always the window *)
-    unfold range. rewrite Hfr, Hrange, somes_map_some, Nat.mul_0_r. cbn [iter_n y_sender y_recv y_sent y_next y_live y_panics y1].
+  destruct (f_window fl || (N.leb o 1 && (f_lagdel fl || negb (pending_delete 0 w)))) eqn:Hpath.
+  - (* the window is replayed *)
+    rewrite Nat.mul_0_r. cbn [iter_n y_sender y_recv y_sent y_next y_live y_panics y1].
     eexists. split.
     + unfold next_of. cbn [y_next aget]. rewrite Hnn, Nat2N.id, Nat.max_0_l. cbn [aset]. reflexivity.
-    + apply Hwin; [|left; reflexivity]. rewrite rc_store_recv_bulk. unfold bulk_cps. rewrite Hfb. reflexivity.
-  - destruct (N.leb_spec o 1) as [Ho1|Ho1].
-    + (* the window reaches back to the beginning: replay it *)
-      unfold range. rewrite Hfr, Hrange, somes_map_some, Nat.mul_0_r. cbn [iter_n y_sender y_recv y_sent y_next y_live y_panics y1].
-      eexists. split.
-      * unfold next_of. cbn [y_next aget]. rewrite Hnn, Nat2N.id, Nat.max_0_l. cbn [aset]. reflexivity.
-      * apply Hwin; [|right; unfold c in *; lia]. rewrite rc_store_recv_bulk. unfold bulk_cps. rewrite Hfb. reflexivity.
-    + (* behind the window: snapshot of the session tables *)
-      cbn [iter_n y_sender y_recv y_sent y_next y_live y_panics y1].
-      eexists. split.
-      * unfold next_of. cbn [y_next aget]. fold n1. rewrite Nat2N.id, Nat.max_0_l. cbn [aset]. reflexivity.
-      * intros k. rewrite rc_store_recv_snapshot. cbn [rc_store]. unfold snapshot_cps. cbn [y_live].
-        assert (Hok : live_ok (live_run evs1)) by (apply (live_ok_fold evs1 []); split; [constructor|intros ? ? []]).
-        rewrite (filter_id _ (live_run evs1)).
-        -- rewrite (fold_put_live _ Hok). unfold expected_store. rewrite aget_map.
-           destruct (aget keyeqb k (live_run evs1)); reflexivity.
-        -- intros [k' s'] Hin. cbn [snd]. apply N.eqb_eq.
-           apply (live_srg g evs1 [] (fun _ _ F => match F with end) Hall k' s' Hin).
+    + apply Hwin; [rewrite rc_store_recv_bulk; unfold bulk_cps; rewrite Hfb; reflexivity|].
+      destruct (f_window fl); [left; reflexivity|right]. cbn [orb] in Hpath.
+      destruct (N.leb_spec o 1); [unfold c in *; lia|discriminate].
+  - (* snapshot of the session tables *)
+    rewrite Nat.mul_0_r. cbn [iter_n y_sender y_recv y_sent y_next y_live y_panics y1].
+    eexists. split.
+    + unfold next_of. cbn [y_next aget]. fold n1. rewrite Nat2N.id, Nat.max_0_l. cbn [aset]. reflexivity.
+    + intros k. rewrite rc_store_recv_snapshot.
+      replace (rc_store (if f_lagdel fl then mkrecv [] [] g0 else purge fl (mkrecv [] [] g0) g _)) with
+        (@nil ((N * N) * checkpoint)) by (destruct (f_lagdel fl); reflexivity).
+      unfold snapshot_cps. cbn [y_live].
+      assert (Hok : live_ok (live_run evs1)) by (apply (live_ok_fold evs1 []); split; [constructor|intros ? ? []]).
+      rewrite (filter_id _ (live_run evs1)).
+      * rewrite (fold_put_live _ Hok). unfold expected_store. rewrite aget_map.
+        destruct (aget keyeqb k (live_run evs1)); reflexivity.
+      * intros [k' s'] Hin. cbn [snd]. apply N.eqb_eq.
+        apply (live_srg g evs1 [] (fun _ _ F => match F with end) Hall k' s' Hin).
 Qed.
 
 Lemma bulk_then_stream_state fl g0 cap g evs1 evs2 :
